@@ -275,9 +275,24 @@ def r7_order(cx):
             return bool(alts) and all(U(a) == "map" or (isinstance(a, ast.Attribute) and a.attr == "map") for a in alts)
         return False
     maps = [x for x in find_calls(m.body) if _is_map(x)]
+    def _wrapper(name):
+        """is <name> the per-element wrapper  def w(func, value, exc): try: return func(value), None / except: ...; return None, tb  (nested or module level)"""
+        cands = [n for n in ast.walk(m) if isinstance(n, FUNC_TYPES) and n.name == name and n is not m]
+        if not cands and sd.has(name) and isinstance(sd.get(name), FUNC_TYPES):
+            cands = [sd.get(name)]
+        if len(cands) != 1:
+            return False
+        w = cands[0]
+        ps = params(w)
+        trs = [t for t in w.body if isinstance(t, ast.Try)]
+        if len(ps) != 3 or len(trs) != 1:
+            return False
+        rets = [r for r in trs[0].body if isinstance(r, ast.Return)]
+        return len(rets) == 1 and isinstance(rets[0].value, ast.Tuple) and len(rets[0].value.elts) == 2 and U(rets[0].value.elts[0]) == "%s(%s)" % (ps[0], ps[1])
+
     def _elementwise(x):
         # map(call_serializer, [ser]*n, v, [exc]*n)   |   map(<local one-argument function returning call_serializer(ser, <arg>, exc)>, v)
-        if len(x.args) == 4 and U(x.args[2]) == "v" and U(x.args[0]) == "call_serializer":
+        if len(x.args) == 4 and U(x.args[2]) == "v" and isinstance(x.args[0], ast.Name) and (x.args[0].id == "call_serializer" or _wrapper(x.args[0].id)):
             return True
         if len(x.args) == 2 and U(x.args[1]) == "v" and not x.keywords:
             f = x.args[0]
@@ -288,7 +303,7 @@ def r7_order(cx):
                     body = [st for st in defs[0].body if not (isinstance(st, ast.Expr) and isinstance(st.value, ast.Constant))]
                     if len(ps) == 1 and len(body) == 1 and isinstance(body[0], ast.Return) and isinstance(body[0].value, ast.Call):
                         c = body[0].value
-                        return call_name(c) == "call_serializer" and len(c.args) == 3 and U(c.args[1]) == ps[0] and not c.keywords
+                        return (call_name(c) == "call_serializer" or _wrapper(call_name(c) or "")) and len(c.args) == 3 and U(c.args[1]) == ps[0] and not c.keywords
             if isinstance(f, ast.Lambda) and len(f.args.args) == 1 and isinstance(f.body, ast.Call):
                 c = f.body
                 return call_name(c) == "call_serializer" and len(c.args) == 3 and U(c.args[1]) == f.args.args[0].arg and not c.keywords
